@@ -270,3 +270,14 @@ PROPS['C17'] = dict(
         thorough=[rc(8000, shards=2, max_size=300, variant=v, tag=v) for v in FOOT_VARIANTS],
     ),
 )
+
+PROPS['C18'] = dict(
+    custom='c18_driver', harness='diff', cases=dict(quick=240000, thorough=4000000),
+    rule=('cases: scenarios = byte strings generated once per run by rapidcheck and decoded into (a) a document (tree / mutation / chain / raw / shipped '
+          'corpus) plus a script of up to 48 calls over the whole public parser API incl. lookups, getters, print and to_string, (b) a writer call sequence '
+          'with a generated capacity, writer_verify and reset, (c) all three Binson::deserialize overloads, serialize, toStr, iteration order and put() in '
+          'reverse order, (d) to_string at three capacities and print. The digest of all observables (return values, error codes, decoded values, spans as '
+          'offsets, bytes written, counters, text, captured stdout, exception kind) must be identical in {gcc,clang} x {-O0,-O2,-Os} x '
+          '{-fsigned-char,-funsigned-char} and in gcc/clang ASan+UBSan builds (which must also not trap). Non-trivial iff the scenario document or call '
+          'sequence contains a byte >= 0x80, a double, or a negative multi-byte integer; distinct = distinct scenario byte strings.'),
+)
